@@ -42,10 +42,10 @@ def gen_taxonomy(rng, wp):
     depth = wp.get('depth', 2)
     n_leaves = wp.get('n_leaves', 4)
     odd = wp.get('odd_names', False)
-    level_names = ['class', 'subclass', 'supertype', 'cluster']
+    level_names = ['division', 'neighborhood', 'class', 'subclass', 'supertype', 'cluster']
     if odd:
-        level_names = ['lvl A', 'sub,level', 'super"type', 'clu_ster']
-    hierarchy = level_names[4 - depth:] if not wp.get('top_levels') else level_names[:depth]
+        level_names = ['di vision', "neigh'bor", 'lvl A', 'sub,level', 'super"type', 'clu_ster']
+    hierarchy = level_names[len(level_names) - depth:] if not wp.get('top_levels') else level_names[2:2 + depth]
     hierarchy = list(hierarchy)
     # sizes per level: non-decreasing, last = n_leaves
     sizes = [n_leaves]
@@ -104,7 +104,15 @@ class World(object):
         tax = self.tax
         n_genes = wp.get('n_genes', 12)
         gene_style = wp.get('gene_style', 'plain')
-        if gene_style == 'plain':
+        self.q_genes_file = None
+        pool = None
+        if gene_style == 'ensembl':
+            # real mouse Ensembl ids: the reference and the marker table use the bare id, the query file may carry
+            # version suffixes (mapping with map_to_ensembl=True strips them)
+            pool = _ensembl_pool()
+            start = rng.randrange(0, max(1, len(pool) - n_genes - 8))
+            self.genes = list(pool[start:start + n_genes])
+        elif gene_style == 'plain':
             self.genes = ['gene_%d' % i for i in range(n_genes)]
         else:
             self.genes = ['g %d,"%s"' % (i, 'x' * (i % 3)) for i in range(n_genes)]
@@ -138,13 +146,27 @@ class World(object):
         self.ref_X = np.array([ref_rows[i] for i in order], dtype=float).reshape(len(order), n_genes)
         self.ref_labels = [ref_labels[i] for i in order]
         self.ref_ids = ['ref_%d' % i for i in range(len(order))]
+        if wp.get('dup_genes') and n_genes >= 3:
+            # several genes with IDENTICAL counts in every reference cell (hence identical statistics and exactly tied
+            # p-values for every cluster pair)
+            drng = random.Random(wp['seed'] * 7 + 13)
+            src = drng.randrange(n_genes)
+            for j in drng.sample([g for g in range(n_genes) if g != src], min(n_genes - 1, int(wp['dup_genes']))):
+                self.ref_X[:, j] = self.ref_X[:, src]
         # ---- query genes: permutation of a subset of reference genes plus extras
         keep = [g for g in self.genes if rng.random() >= wp.get('q_drop', 0.15)]
         if not keep:
             keep = [self.genes[0]]
         extra = ['extra_%d' % i for i in range(wp.get('q_extra', 2))]
+        if pool is not None:
+            extra = [g for g in pool[start + n_genes:start + n_genes + 8] if g not in self.genes][:wp.get('q_extra', 2)]
         self.q_genes = keep + extra
         rng.shuffle(self.q_genes)
+        if pool is not None:
+            style = rng.choice(['all_versioned', 'all_versioned', 'some_versioned', 'bare'])
+            self.q_genes_file = [g + '.%d' % rng.randint(1, 12)
+                                 if style == 'all_versioned' or (style == 'some_versioned' and rng.random() < 0.5)
+                                 else g for g in self.q_genes]
         # ---- marker table
         self.markers = self._gen_markers(rng, wp)
         # ---- query cells
@@ -326,6 +348,18 @@ def rechunk_h5ad(path, chunks, layer=None):
 
 def make_world(wp):
     return World(wp)
+
+
+_ENS_POOL = []
+
+
+def _ensembl_pool():
+    if not _ENS_POOL:
+        import re
+        from cell_type_mapper.data.mouse_gene_id_lookup import mouse_gene_id_lookup
+        pat = re.compile(r'ENSMUSG[0-9]+$')
+        _ENS_POOL.extend(sorted(set(v for v in mouse_gene_id_lookup.values() if pat.match(v)))[:6000])
+    return _ENS_POOL
 
 
 def draw_world_params(rng, tier='quick', **force):
